@@ -471,6 +471,14 @@ Definition write_installed (p : pkg) (files : list hdr) : res string :=
   do ls <- installed_record_lines p sorted;
   Ok (join s_nl ls +++ s_nl +++ s_nl).
 
+(* lib/apk/db/installed after AddInstalledPackage was called for each record in turn
+   (the file is opened in append mode; a refusal stops the sequence) *)
+Fixpoint write_db (rs : list (pkg * list hdr)) : res string :=
+  match rs with
+  | [] => Ok ""
+  | (p, files) :: rs' => do t <- write_installed p files; do rest <- write_db rs'; Ok (t +++ rest)
+  end.
+
 (* ---- installed database: reader ---------------------------------------------------- *)
 Definition parse_perms (s : string) : res (Z * Z * Z) :=
   match split_on ":" s with
